@@ -72,6 +72,9 @@ def config(
         th.update(draw(cards.ew_params()))
     if process == "CC" and draw(st.booleans()):
         th["CKM"] = draw(cards.ckm())
+    if pto == 3 and scheme != "ZM-VFNS":
+        # the approximate N3LO massive coefficient functions come in three documented variants (central, upper, lower)
+        th["n3lo_cf_variation"] = draw(st.sampled_from([0, 0, 1, -1]))
     if scheme.startswith("FONLL"):
         th["FONLLParts"] = draw(st.sampled_from(list(fonllparts)))
     if sv is True:
